@@ -389,6 +389,16 @@ type EnumItemReference struct {
 
 // Link for EnumItemReference.
 func (e EnumItemReference) Link(scope Scope, t TypeSpec) (ConstantValue, error) {
+	switch RootTypeSpec(t).(type) {
+	case *I8Spec, *I16Spec, *I32Spec, *I64Spec:
+		// An enum item may be used where an integer is expected, if its
+		// value fits that integer type.
+		if _, err := ConstantInt(e.Item.Value).Link(scope, t); err != nil {
+			return nil, err
+		}
+		return e, nil
+	}
+	// For every other type the item must belong to that type.
 	if RootTypeSpec(t) != e.Enum {
 		return nil, constantValueCastError{Value: e, Type: t}
 	}
@@ -431,16 +441,6 @@ func (r constantReference) Link(scope Scope, t TypeSpec) (ConstantValue, error) 
 				Enum: enum,
 				Item: item,
 			}
-			switch RootTypeSpec(t).(type) {
-			case *I8Spec, *I16Spec, *I32Spec, *I64Spec:
-				// An enum item may be used where an integer is
-				// expected, if its value fits that integer type.
-				if _, err := ConstantInt(item.Value).Link(scope, t); err != nil {
-					return nil, err
-				}
-				return ref, nil
-			}
-			// For every other type the item must belong to that type.
 			return ref.Link(scope, t)
 		}
 
